@@ -53,6 +53,8 @@ import (
 type recorder struct {
 	subscribed []string
 	published  []pub
+	failOnce   map[string]bool // the next Subscribe of this topic fails (a transient join failure)
+	live       map[string]bool // topics with a subscription that succeeded and was not removed
 }
 type pub struct {
 	topic string
@@ -60,12 +62,23 @@ type pub struct {
 }
 
 func (r *recorder) Subscribe(_ *zap.Logger, name string) error {
+	if r.failOnce[name] {
+		delete(r.failOnce, name)
+		return fmt.Errorf("c18: could not join topic %s", name)
+	}
 	r.subscribed = append(r.subscribed, name)
+	if r.live == nil {
+		r.live = map[string]bool{}
+	}
+	r.live[name] = true
 	return nil
 }
-func (r *recorder) Unsubscribe(*zap.Logger, string, bool) error { return nil }
-func (r *recorder) Peers(string) ([]peer.ID, error)             { return nil, nil }
-func (r *recorder) Topics() []string                            { return nil }
+func (r *recorder) Unsubscribe(_ *zap.Logger, name string, _ bool) error {
+	delete(r.live, name)
+	return nil
+}
+func (r *recorder) Peers(string) ([]peer.ID, error) { return nil, nil }
+func (r *recorder) Topics() []string                { return nil }
 func (r *recorder) Broadcast(name string, data []byte, _ time.Duration) error {
 	r.published = append(r.published, pub{name, append([]byte{}, data...)})
 	return nil
@@ -415,6 +428,48 @@ func main() {
 			total.bad("subscribe-all-differs", "SubscribeAll does not join exactly commons.Topics()", map[string]interface{}{"joined": nd.rec.subscribed}, len(full), 128)
 		}
 		bounds = append(bounds, "SubscribeAll joins exactly the 128 advertised topics")
+	}
+
+	// ---- 2b. a validator that starts is subscribed to its topic whatever the node advertises:
+	// for every subnet, (i) the subnet is advertised and was joined at start, (ii) it is advertised
+	// but joining it failed at start (subscribeToSubnets only warns), (iii) another subnet is
+	// advertised. After Subscribe(pk) returns nil the topics controller must hold a live
+	// subscription of the validator's topic.
+	{
+		known := env.PKs[valenv.VKnown]
+		for sn := 0; sn < commons.Subnets(); sn++ {
+			pk := append([]byte{}, known...)
+			found := false
+			for b := 0; b < 256 && !found; b++ {
+				pk[4] = byte(b)
+				found = commons.ValidatorSubnet(hex.EncodeToString(pk)) == sn
+			}
+			if !found {
+				continue
+			}
+			topic := commons.ValidatorTopicID(pk)[0]
+			for _, sc := range []string{"advertised-and-joined", "advertised-join-failed-at-start", "other-subnet-advertised"} {
+				nd := newNode(env, env.NetPre, 1)
+				switch sc {
+				case "advertised-and-joined":
+					p2pv1.VerifAdvertise(nd.net, sn)
+				case "advertised-join-failed-at-start":
+					p2pv1.VerifAdvertise(nd.net, sn)
+					nd.rec.failOnce = map[string]bool{topic: true}
+				case "other-subnet-advertised":
+					p2pv1.VerifAdvertise(nd.net, (sn+1)%commons.Subnets())
+				}
+				_ = p2pv1.VerifSubscribeToSubnets(nd.net)
+				err := nd.net.Subscribe(pk)
+				total.evals++
+				total.outcomes[fmt.Sprintf("subscribe with %s: err=%v live=%v", sc, err != nil, nd.rec.live[topic])]++
+				if err == nil && !nd.rec.live[topic] {
+					total.bad("validator-started-without-subscription "+sc, fmt.Sprintf("Subscribe(pk) returned nil for a validator of subnet %d (%s) but the topics controller holds no subscription of %s", sn, sc, topic),
+						map[string]interface{}{"key": hex.EncodeToString(pk), "subnet": sn, "scenario": sc}, nd.rec.subscribed, topic)
+				}
+			}
+		}
+		bounds = append(bounds, "Subscribe(pk) leaves a live subscription of the validator's topic: 128 subnets x {advertised and joined, advertised but join failed at start, another subnet advertised}")
 	}
 
 	// ---- 3. topic name round trip
